@@ -122,7 +122,12 @@ pub fn render(doc: &Doc, version: usize) -> String {
 }
 
 fn damage(kind: u8, text: &str) -> String {
-    match kind % 6 {
+    match kind % 7 {
+        6 => {
+            // a refresh_rate that is a string but not a duration
+            let body: Vec<&str> = text.lines().filter(|l| !l.starts_with("refresh_rate")).collect();
+            format!("refresh_rate: 1 secnd\n{}\n", body.join("\n"))
+        }
         4 => text.replacen("root:\n  level: ", "root:\n  level: x", 1), // unknown level right below a ruler comment
         5 => text.replacen("# ──── root ────\n", "# ──── root ────\nroot: [unclosed\n", 1), // syntax error next to non-ASCII text
         0 => format!("{}extra: [1, 2\n", text),                        // unterminated flow sequence
@@ -240,7 +245,7 @@ pub fn generate(rng: &mut Rng, tier: Tier) -> Scn {
             7 => Step::WriteBackdated { doc: rng.below(ndocs as u64) as usize },
             0 => Step::Write { doc: rng.below(ndocs as u64) as usize },
             1 => Step::Touch,
-            2 => Step::Damage { kind: rng.below(6) as u8, doc: rng.below(ndocs as u64) as usize },
+            2 => Step::Damage { kind: rng.below(7) as u8, doc: rng.below(ndocs as u64) as usize },
             3 => Step::Torn { doc: rng.below(ndocs as u64) as usize, permille: rng.range(1, 999) as u16 },
             4 => Step::Write { doc: 0 },
             5 => Step::Delete,
@@ -274,6 +279,8 @@ pub fn generate(rng: &mut Rng, tier: Tier) -> Scn {
 #[derive(Clone, Debug)]
 enum FileState {
     Text(String),
+    /// text that is invalid by construction: the oracle does not ask log4rs' own parser about it
+    Invalid(String),
     Missing,
     Dir,
 }
@@ -386,7 +393,7 @@ pub fn execute(scn: &Scn, opts: &ExecOpts) -> Outcome {
                         let t = damage(*kind, &render(&scn.docs[*doc], *doc));
                         write(&t);
                         last_text = t.clone();
-                        edits.lock().unwrap().push(Edit { at_ns: now, state: FileState::Text(t) });
+                        edits.lock().unwrap().push(Edit { at_ns: now, state: FileState::Invalid(t) });
                     }
                     Step::Torn { doc, permille } => {
                         let full = render(&scn.docs[*doc], *doc);
@@ -553,6 +560,15 @@ fn judge(scn: &Scn, sink: &Sink, sleeps: &[(i64, u64)], alive_at_end: bool, star
             FileState::Missing | FileState::Dir => {
                 out.probe("polls_keeping_last_good", 1);
                 out.probe("polls_file_unreadable", 1);
+            }
+            FileState::Invalid(t) => {
+                if t == last_text {
+                    out.probe("polls_unchanged", 1);
+                } else {
+                    last_text = t.clone();
+                    out.probe("polls_keeping_last_good", 1);
+                    out.probe("polls_unparsable", 1);
+                }
             }
             FileState::Text(t) => {
                 if t == last_text {
